@@ -1353,7 +1353,10 @@ class JumpBase(FinalInstruction):
         """Clear references"""
         while self._block_map:
             _, block = self._block_map.popitem()
-            block.references.remove(self)
+            # Both targets of a conditional jump may be the same block,
+            # which holds this reference only once:
+            if block not in self._block_map.values():
+                block.references.remove(self)
 
     @property
     def targets(self):
